@@ -242,7 +242,8 @@ func (ex *Exec) addressText(p value) value {
 		v := ex.freshVarExact(fmt.Sprintf("!addr%d.%d", ex.addrCtr, k), bv(8))
 		isDigit := tc.And(tc.BVCmp(OpBVUle, tc.BV('0', 8), v), tc.BVCmp(OpBVUle, v, tc.BV('9', 8)))
 		isHex := tc.And(tc.BVCmp(OpBVUle, tc.BV('a', 8), v), tc.BVCmp(OpBVUle, v, tc.BV('f', 8)))
-		ex.assume(fromTerm(tc.Or(isDigit, isHex)))
+		// fresh variable, always satisfiable: assert without a feasibility query
+		ex.assertPC(tc.Or(isDigit, isHex))
 		out = append(out, v)
 		mine = append(mine, v)
 		if ex.addrOwner == nil {
@@ -256,7 +257,7 @@ func (ex *Exec) addressText(p value) value {
 		for k := range mine {
 			diff = tc.Or(diff, tc.Not(tc.Eq(mine[k], other[k])))
 		}
-		ex.assume(fromTerm(diff))
+		ex.assertPC(diff) // 16^6 addresses: always satisfiable, no query needed
 	}
 	ex.addrVars = append(ex.addrVars, mine)
 	ex.addrs[key] = out
